@@ -60,16 +60,16 @@ fn runs_for(property: &str, tier: Tier) -> u64 {
         ("C05", Tier::Quick) => 300_000,
         ("C05", Tier::Thorough) => 30_000_000,
         ("C08", Tier::Quick) => 200_000,
-        ("C08", Tier::Thorough) => 20_000_000,
+        ("C08", Tier::Thorough) => 15_000_000,
         ("C07", Tier::Tiny) => 40,
         ("C07", Tier::Quick) => 4_000,
-        ("C07", Tier::Thorough) => 300_000,
+        ("C07", Tier::Thorough) => 2_000_000,
         ("C17", Tier::Tiny) => 20,
         ("C17", Tier::Quick) => 800,
-        ("C17", Tier::Thorough) => 40_000,
+        ("C17", Tier::Thorough) => 200_000,
         ("C20", Tier::Tiny) => 200,
         ("C20", Tier::Quick) => 8_000,
-        ("C20", Tier::Thorough) => 200_000,
+        ("C20", Tier::Thorough) => 2_000_000,
         _ => 1000,
     }
 }
@@ -247,7 +247,7 @@ fn check_main(args: &[String]) {
     let mut extra = json!({});
     if property == "C08" && std::env::var("VERIF_SKIP_MIRI").is_err() && std::env::var("VERIF_NO_EVIDENCE").is_err() {
         let (n_seeds, n_plans, reps) = match tier {
-            Tier::Thorough => (256, 3, 8),
+            Tier::Thorough => (128, 3, 6),
             Tier::Quick => (16, 2, 2),
             Tier::Tiny => (4, 1, 2),
         };
